@@ -203,8 +203,13 @@ func (g *goBuilder) value(t Term) string {
 		if c > maxReplayLen || c < n {
 			c = n
 		}
+		// the octets between length and capacity come from the model too (a re-slice within the capacity shows them)
+		fill := n
+		if _, isBasic := u.Elem().Underlying().(*types.Basic); isBasic && c > n && c-n <= 64 {
+			fill = c
+		}
 		var elems []string
-		for i := int64(0); i < n; i++ {
+		for i := int64(0); i < fill; i++ {
 			el := Term{S: "(select " + arr + " (+ " + off + " " + strconv.FormatInt(i, 10) + "))", T: u.Elem()}
 			ev := g.value(el)
 			if b, ok := u.Elem().Underlying().(*types.Basic); ok && b.Info()&types.IsInteger != 0 {
@@ -219,6 +224,9 @@ func (g *goBuilder) value(t Term) string {
 		name := fmt.Sprintf("vrfS%d", g.n)
 		ts := g.typeStr(t.T)
 		g.pre = append(g.pre, fmt.Sprintf("%s := append(make(%s, 0, %d), %s{%s}...)", name, ts, c, ts, strings.Join(elems, ", ")))
+		if fill > n {
+			g.pre[len(g.pre)-1] += fmt.Sprintf("[:%d]", n)
+		}
 		if n == 0 && c == 0 {
 			// distinguish nil from empty only by capacity 0
 			g.pre[len(g.pre)-1] = fmt.Sprintf("var %s %s", name, ts)
@@ -623,7 +631,7 @@ func (r *Runner) replayObligation(prop string, o *Obligation) (*ReplayRecord, st
 	// harness
 	var b strings.Builder
 	testName := "TestVrfReplay"
-	b.WriteString("package " + fc.pkg.Types.Name() + "\n\nimport (\n\t\"fmt\"\n\t\"math\"\n\t\"reflect\"\n\t\"strconv\"\n\t\"strings\"\n\t\"testing\"\n\t\"time\"\n")
+	b.WriteString("package " + fc.pkg.Types.Name() + "\n\nimport (\n\t\"fmt\"\n\t\"math\"\n\t\"reflect\"\n\t\"strconv\"\n\t\"strings\"\n\t\"testing\"\n\t\"time\"\n\tvrfos \"os\"\n")
 	for imp := range g.imports {
 		if imp == "math" {
 			continue
@@ -632,6 +640,8 @@ func (r *Runner) replayObligation(prop string, o *Obligation) (*ReplayRecord, st
 	}
 	b.WriteString(")\n\nvar _ = math.Pi\nvar _ = time.Now\nvar _ = strings.Join\nvar _ = strconv.Itoa\n" + harnessFmt)
 	b.WriteString("\nfunc " + testName + "(t *testing.T) {\n")
+	// the function under replay may create files named by the model's strings: never in the repository
+	b.WriteString("\tif d, err := vrfos.MkdirTemp(\"\", \"vrfcwd\"); err == nil {\n\t\tvrfos.Chdir(d)\n\t\tdefer vrfos.RemoveAll(d)\n\t}\n")
 	for _, p := range g.pre {
 		b.WriteString("\t" + p + "\n")
 	}
